@@ -108,6 +108,18 @@ def check(ctx, st, idx, rnd, family, var=0):
     if 'd' in want:
         got = float(pix.angle.to_value('rad'))
         exp = math.atan2(want['d'][1], want['d'][0])
+        if family != 'exact':
+            # the stated angle is relative to LOCAL north at the region's centre: measure how much local north is turned there
+            # with respect to north at the reference pixel (meridian convergence), with astropy alone, and expect that turn too
+            def north_dir(px, py):
+                p0 = wcs.pixel_to_world(px, py)
+                p1 = p0.directional_offset_by(0 * u_.deg, 2 * u_.arcsec)
+                x1, y1 = wcs.world_to_pixel(p1)
+                return math.atan2(float(y1) - py, float(x1) - px)
+            import astropy.units as u_
+            conv = math.remainder(north_dir(cx, cy) - north_dir(crpix[0] - 1.0, crpix[1] - 1.0), 2 * math.pi)
+            exp += conv
+            ang_tol = 2e-6 + 4 * theta * theta            # what is left is second order in the offset
         ev['want']['ang'] = int(round(math.remainder(exp, 2 * math.pi) * 1e6))
         ev['got']['ang'] = int(round(math.remainder(got, 2 * math.pi) * 1e6))
         if bad is None and abs(math.remainder(got - exp, 2 * math.pi)) > ang_tol:
